@@ -65,6 +65,9 @@ def body(run):
             "ext": rng.random() < 0.3, "extTable": rng.choice(["", "ext1", "tü"]), "rounds": rng.randrange(1, 5), "seed": rng.randrange(1000),
             # half of the sessions run further queries on the same connection: nothing of an earlier query may show in a later one
             "more": [more(j) for j in range(rng.choice([0, 0, 1, 2, 3]))]})
+        if i % 25 == 7:
+            # a block whose compressed frame exceeds 16 KiB (incompressible rows), followed by the next block before the flush
+            sessions[-1].update({"bigRows": 2200, "ext": i % 50 == 7, "rounds": rng.choice([1, 2]), "more": sessions[-1]["more"][:1]})
     drv = V.go_build(PID, "drv")
     lines = S.run_sessions(PID, drv, sessions, "sessions", nproc=8, par=8)
     slines = [l for l in lines if '"ev":"ClientStream"' in l]
